@@ -3,8 +3,9 @@ C02 — Delegation follows entitlements, never over-claims, converges and is ide
 Property theorems only; helper lemmas live in `KrillModel/Ca/Lemmas*.lean`.
 -/
 import KrillModel.Ca.Preds
+import KrillModel.Ca.LemmasNoOver
 namespace KM.Props.C02
-open KM.CaK KM.Res KM.AMap
+open KM KM.CaK KM.Res KM.AMap
 
 /-! ## Issued certificates are exactly limit(issuer ∩ entitlement) -/
 
@@ -47,5 +48,120 @@ example :
     issueCert (.active ⟨1, { res := [1, 2, 3] }, false⟩) [2, 3, 4] none 0 = .ok { res := [2, 3] } ∧
     issueCert (.active ⟨1, { res := [1, 2, 3] }, false⟩) [2, 3, 4] (some [3]) 0 =
       .ok { res := [3], limit := some [3] } := by decide
+
+/-! ## No issued certificate ever exceeds the issuing key's certificate -/
+
+/-- Invariant over all histories (any commands, any inputs, any interleaving of entitlement
+changes, key rolls, suspension, unsuspension, revocation): in every reachable state every child
+certificate in `issued` of a class has resources inside the certificate of the class's current
+key – the key that issued it and publishes it. -/
+theorem never_overclaims {s : Sys} (h : Reachable s) : s.ca.noOverclaim = true := by
+  have hno := reachable_noOver h
+  simp only [Ca.noOverclaim, List.all_eq_true]
+  intro r _
+  cases hg : get s.ca.classes r with
+  | none => rfl
+  | some rc =>
+    have := hno r rc hg
+    simp only [Rc.noOverclaim]
+    unfold NoOver at this
+    cases hc : rc.keys.current with
+    | none =>
+      rw [hc] at this
+      simp only [List.isEmpty_iff]
+      cases hi : rc.certs.issued with
+      | nil => rfl
+      | cons p t =>
+        have h1 := this p.1
+        rw [hi] at h1
+        obtain ⟨k, v⟩ := p
+        simp [get_cons] at h1
+    | some c =>
+      rw [hc] at this
+      simp only [List.all_eq_true]
+      intro k _
+      cases hk : get rc.certs.issued k with
+      | none => rfl
+      | some cc => exact this k cc hk
+
+/-- In particular a received certificate with fewer resources: the **same command** that stores
+`CertificateReceived` carries the `ChildCertificatesUpdated` that re-issues the over-claiming
+child certificates with the intersection or removes them – the state after the command, which
+is what gets published, has no over-claiming certificate. -/
+theorem shrink_in_same_command {s : Sys} (h : Reachable s) (rcn : Rcn) (ki : KeyId) (cert : Cert)
+    (na : Int) (prods : List ProdUpd) :
+    (s.next (.updateRcvdCert rcn ki cert na prods)).ca.noOverclaim = true :=
+  never_overclaims (Reachable.step _ h)
+
+/-- The same for key activation: after the command that stores `KeyRollActivated` every issued
+certificate lies inside the **new** key's certificate. -/
+theorem activation_keeps_containment {s : Sys} (h : Reachable s) (na : Int) :
+    (s.next (.keyrollActivate na)).ca.noOverclaim = true :=
+  never_overclaims (Reachable.step _ h)
+
+/-- Non-vacuity: a shrink that re-issues one child certificate and removes another, in the
+command that receives the smaller certificate. -/
+def shrinkHistory : List Cmd :=
+  [ .repoUpdate [], .addParent 9,
+    .updateEntitlements 9 [⟨0, [1, 2, 3], 100, []⟩] 0 [4],
+    .updateRcvdCert 0 4 { res := [1, 2, 3], na := 100 } 50 [],
+    .childAdd 7 [1, 2], .childAdd 8 [3],
+    .childCertify 7 0 6 none 60, .childCertify 8 0 5 none 60 ]
+
+example :
+    (match (Sys.run {} shrinkHistory).exec (.updateRcvdCert 0 4 { res := [1], na := 100 } 70 []) with
+      | .stored evs s' =>
+        evs == [.key 0 (.received 4 { res := [1], na := 100 }),
+                .childCerts 0 { issued := [(6, { res := [1], na := 70 })], removed := [5] }] &&
+        (get s'.ca.classes 0).map (·.certs.issued) == some [(6, { res := [1], na := 70 })]
+      | _ => false) = true := by decide
+
+/-! ## Active children keep their certificate – false on this tree (F-C02-1) -/
+
+/-
+Full statement (false):
+
+  theorem shrink_active_child (h : Reachable s) : s.ca.activeChildHasCert = true
+
+i.e. in every reachable state an active child's key that is in use in an existing class has
+its certificate among the issued (= published) ones, whatever the suspension history.
+`add_issued_certificate` (child.rs:200-203) leaves a `suspended` entry of the same key in place
+when an unsuspended child's certificate is re-issued; the next shrink then re-issues that stale
+entry as *suspended*, and `suspend_certificate` removes the active child's certificate.
+-/
+
+/-- suspend → unsuspend → the parent's certificate shrinks. -/
+def staleHistory : List Cmd :=
+  [ .repoUpdate [], .addParent 9,
+    .updateEntitlements 9 [⟨0, [1, 2, 3], 100, []⟩] 0 [4],
+    .updateRcvdCert 0 4 { res := [1, 2, 3], na := 100 } 50 [],
+    .childAdd 7 [1, 2],
+    .childCertify 7 0 6 none 60,
+    .childSuspend 7,
+    .childUnsuspend 7 10 61,
+    .updateRcvdCert 0 4 { res := [1], na := 100 } 62 [] ]
+
+/-- The negation, with the concrete witness (replayed on the implementation:
+corpus/system/c02-suspend-unsuspend-shrink.ops). -/
+theorem not_shrink_active_child : ¬ ∀ s : Sys, Reachable s → s.ca.activeChildHasCert = true := by
+  intro hall
+  have := hall (Sys.run {} staleHistory) (reachable_run .init _)
+  revert this
+  decide
+
+/-- What the witness state looks like: child 7 is active, its key 6 is in use in class 0, the
+class holds resource 1 which the child is entitled to, and yet nothing is issued: the
+certificate sits in `suspended`. -/
+example :
+    let s := Sys.run {} staleHistory
+    (get s.ca.children 7).map (·.active) = some true ∧
+    (get s.ca.classes 0).map (·.certs.issued) = some [] ∧
+    (get s.ca.classes 0).map (·.certs.suspended) = some [(6, { res := [1], na := 62 })] ∧
+    (get s.objs 0).map (·.currentSet.published) = some [] := by decide
+
+/-- Before the shrink the unsuspended child has its key in both maps (the stale entry). -/
+example :
+    (get (Sys.run {} (staleHistory.take 8)).ca.classes 0).map (fun rc => (rc.certs.issued, rc.certs.suspended)) =
+      some ([(6, { res := [1, 2], na := 61 })], [(6, { res := [1, 2], na := 60 })]) := by decide
 
 end KM.Props.C02
